@@ -117,6 +117,14 @@ def check_cost(ctx, c, label, dr, rng, fails):
     s = build(c, dr, rng, label)
     with warnings.catch_warnings():
         warnings.simplefilter('ignore')
+        if rng.random() < 0.35:
+            # a System that was used before: it held smaller diameters when a first PRISM object was created from it
+            final = {t: s.diameter[t] for t in (NA, NB)}
+            for t in (NA, NB):
+                s.diameter[t] = max(final[t] - 2.0 * dr, dr)
+            s.createPRISM()
+            for t in (NB, NA):
+                s.diameter[t] = final[t]
         P = s.createPRISM()
         x = trial(label['gamma'], P, rng)
         with np.errstate(all='ignore'):
